@@ -562,7 +562,7 @@ def fam_conv_chain(rng, big=False):
 
 SINGLE_KINDS = ["conv", "dw", "fc", "maxpool", "avgpool", "add", "sub", "mul", "logistic", "tanh", "lrelu", "hswish",
                 "softmax", "mean", "resize_bilinear", "resize_nearest", "quantize", "tconv", "reshape", "pad", "pad_bc",
-                "slice", "concat", "minimum", "maximum", "relu", "abs", "add_bcast", "mul_scalar", "transpose", "conv_head"]
+                "slice", "concat", "minimum", "maximum", "relu", "abs", "add_bcast", "mul_scalar", "transpose", "transpose_c", "conv_head"]
 
 
 def fam_single_op(rng, kind=None):
@@ -644,6 +644,16 @@ def fam_single_op(rng, kind=None):
                 y = pool(net, rng, y, "MAX_POOL_2D", (3, 3) if min(y.shape[1:3]) >= 3 else (2, 2), (1, 1), "SAME")
             elif nxt == "conv":
                 y = conv2d(net, rng, y, 8, (1, 1))
+        elif kind == "transpose_c":
+            # every shape / permutation the report lists for TRANSPOSE, incl. those that move the channel axis and ranks 2, 3
+            ww, cc, hh = rng.choice([3, 5, 8, 16, 40]), rng.choice([3, 4, 8, 16, 24]), rng.choice([2, 4, 7, 12])
+            shape, perm = rng.choice([([ww, cc], [1, 0]), ([hh, ww, cc], [1, 0, 2]), ([1, ww, cc], [0, 2, 1]), ([hh, 1, cc], [2, 1, 0]),
+                                      ([1, hh, ww, cc], [0, 2, 1, 3]), ([1, 1, ww, cc], [0, 1, 3, 2]), ([1, hh, 1, cc], [0, 3, 2, 1])])
+            net.inputs.remove(x)
+            net.tensors.remove(x)
+            x = _inp(net, rng, shape, dt)
+            x.idx = net.tensors.index(x)
+            y = transpose(net, rng, x, perm)
         elif kind == "tconv":
             y = transpose_conv(net, rng, x, rng.choice([1, 4, 8]), (3, 3) if rng.random() < 0.7 else (2, 2), (2, 2), rng.choice(["SAME", "VALID"]))
         elif kind == "reshape":
@@ -992,6 +1002,58 @@ def fam_multi_input(rng):
     return net
 
 
+def fam_pow2_rescale(rng):
+    """global-scale operators whose scales differ by exact powers of two (same multiplier, different shift): requantise
+    operators on one input, unpadded average pools with power-of-two windows, elementwise operators in between"""
+    net = Net("pow2_rescale")
+    dt = rng.choice(["int8", "int8", "uint8"])
+    h, w, c = rng.choice([4, 8, 12]), rng.choice([4, 8, 12]), rng.choice([4, 8, 16])
+    s0 = float(np.float32(rng.choice([0.5, 0.25, 0.125, 0.0625]) * rng.choice([1.0, 1.0, 0.75])))
+    zp0 = 0 if dt == "int8" else 128
+    x = net.input([1, h, w, c], dt, s0, zp0, name="input0")
+    outs = []
+    mode = rng.choice(["quantize_fan", "quantize_chain", "avgpools", "mixed"])
+    if mode in ("quantize_fan", "mixed"):
+        for k in rng.sample([1, 2, 3, 4], rng.choice([2, 3])):
+            y = net.tensor([1, h, w, c], dt, float(np.float32(s0 * 2 ** k)), zp0)
+            net.op("QUANTIZE", [x], [y], {})
+            outs.append(y)
+    if mode in ("quantize_chain", "mixed"):
+        t = x
+        for k in range(rng.choice([2, 3])):
+            y = net.tensor([1, h, w, c], dt, float(np.float32(t.scale * 2 ** rng.choice([1, 2]))), zp0)
+            net.op("QUANTIZE", [t], [y], {})
+            t = y
+        outs.append(t)
+    if mode in ("avgpools", "mixed"):
+        a = pool(net, rng, x, "AVERAGE_POOL_2D", (2, 2), (2, 2), "VALID")
+        b = pool(net, rng, x, "AVERAGE_POOL_2D", (4, 4), (4, 4), "VALID")
+        outs += [a, b]
+    net.output(*outs)
+    return net
+
+
+def fam_narrowing_chain(rng):
+    """16-bit convolutions, a type-narrowing QUANTIZE (int16 -> int8) and 8-bit convolutions in one chain, big enough to be
+    cascaded under SRAM pressure: rolling buffers whose consumer changes the element size"""
+    net = Net("narrowing_chain")
+    h, w = rng.choice([(32, 32), (48, 32), (40, 40), (24, 64)])
+    c = rng.choice([8, 16])
+    x = _inp(net, rng, [1, h, w, c], "int16")
+    x.zp = 0
+    t = x
+    for _ in range(rng.choice([1, 2])):
+        t = conv2d(net, rng, t, rng.choice([16, 32]), (3, 3), (1, 1), (1, 1), "SAME", "NONE", per_axis=False)
+        t.zp = 0
+    q = net.tensor(list(t.shape), "int8", _rs(rng, 0.01, 0.3), _zp(rng, "int8"))
+    net.op("QUANTIZE", [t], [q], {})
+    t = q
+    for _ in range(rng.choice([1, 2])):
+        t = conv2d(net, rng, t, rng.choice([8, 16]), (3, 3), (1, 1), (1, 1), "SAME", "NONE")
+    net.output(t)
+    return net
+
+
 def fam_weights_heavy(rng):
     """convolutions / fully connected layers with many weights: weight buffering, double buffering, depth slicing,
     two-core weight interleaving"""
@@ -1272,7 +1334,7 @@ def fam_multi_subgraph(rng, kind=None):
 
 FAMILIES = {
     "conv_chain": fam_conv_chain, "conv_chain_big": lambda rng: fam_conv_chain(rng, big=True), "single": fam_single_op,
-    "diamond": fam_diamond, "mixed_cpu": fam_mixed_cpu, "unsupported": fam_unsupported, "lut_heavy": fam_lut_heavy, "lut_mixed": fam_lut_mixed, "siamese": fam_siamese, "multi_input": fam_multi_input, "weights_heavy": fam_weights_heavy, "ew_dag": fam_ew_dag, "multi_custom": fam_multi_custom,
+    "diamond": fam_diamond, "mixed_cpu": fam_mixed_cpu, "unsupported": fam_unsupported, "lut_heavy": fam_lut_heavy, "lut_mixed": fam_lut_mixed, "siamese": fam_siamese, "multi_input": fam_multi_input, "pow2_rescale": fam_pow2_rescale, "narrowing_chain": fam_narrowing_chain, "weights_heavy": fam_weights_heavy, "ew_dag": fam_ew_dag, "multi_custom": fam_multi_custom,
 }
 FAMILIES["multi_subgraph"] = fam_multi_subgraph
 
